@@ -30,7 +30,7 @@ func promBase(c *core.Ctx) (*types.Named, []string) {
 	st := nt.Underlying().(*types.Struct)
 	var fields []string
 	for i := 0; i < st.NumFields(); i++ {
-		fields = append(fields, st.Field(i).Name())
+		fields = append(fields, an.FieldNameHook(st, i))
 	}
 	return nt, fields
 }
